@@ -6,6 +6,7 @@
 
 mod c01;
 mod c02;
+mod c03;
 mod c13;
 mod common;
 mod crash;
@@ -58,6 +59,7 @@ fn main() {
             "C01" => c01::replay(&plan, &mut sum),
             "C02" => c02::replay(&plan, &mut sum),
             "C13" => c13::replay(&plan, &mut sum),
+            "C03" => c03::replay(&plan, &mut sum),
             _ => Err(format!("unknown check {}", check)),
         };
         if let Err(e) = r {
@@ -69,6 +71,7 @@ fn main() {
             "C01" => c01::run_batch(seed, start, count, &tier, budget_ms, &mut sum),
             "C02" => c02::run_batch(seed, start, count, &tier, budget_ms, &mut sum),
             "C13" => c13::run_batch(seed, start, count, &tier, budget_ms, &mut sum),
+            "C03" => c03::run_batch(seed, start, count, &tier, budget_ms, &mut sum),
             _ => {
                 eprintln!("unknown check {}", check);
                 status = 2;
